@@ -358,8 +358,27 @@ def _r3_r9(ctx):
             okk = okk and norm(t[3][0][1])[0] == "field" and norm(t[3][0][1])[2] == "permission"
         ctx.check(okk, "R9", "match-yields-own-permission", ctx.where(b), "a matching rule yields its own permission set")
         # unix condition: compared for equality with the configured flag
-        eqs = [1 for bb, idx, s in b.stmts() if "rv" in s and s["rv"]["k"] == "bin" and s["rv"]["op"] == "Eq"]
-        ctx.check(bool(eqs), "R9", "unix-condition-compared-with-flag", ctx.where(b), "match-unix compares is_unix with the configured boolean")
+        # (== flag feeding the conjunction, or a direct test either way round with the refusal on the mismatch edge)
+        some_ret = {bb for bb, idx, s_ in b.stmts() if s_["p"] == (0,) and "rv" in s_ and s_["rv"]["k"] == "agg" and s_["rv"].get("variant") == "Some"}
+        okk = False
+        for bb, idx, s_ in b.stmts():
+            rv = s_.get("rv")
+            if not (rv and rv["k"] == "bin" and rv["op"] in ("Eq", "Ne")):
+                continue
+            t = norm(T.rvalue(rv, bb, idx))
+            if not (any(y[0] == "call" and str(y[1]).endswith("as_unix_addr") for y in subterms(t)) and
+                    any(y[0] == "field" and y[2] == "unix" for y in subterms(t))):
+                continue
+            # a switch directly on the comparison?
+            direct = [(sbb, tm) for sbb, tm in b.terms() if tm["k"] == "switch" and op_place(tm["discr"]) == tuple(s_["p"])]
+            if not direct:
+                okk = okk or rv["op"] == "Eq"          # the value flows into the conjunction: `ok && (is_unix == flag)`
+                continue
+            for sbb, tm in direct:
+                mismatch = [tgt for v, tgt in cfg.switch_edges(sbb) if (v != 0) == (rv["op"] == "Ne")]
+                okk = okk or (bool(mismatch) and all(not (some_ret & cfg.reachable_from(tgt)) for tgt in mismatch))
+        ctx.check(okk, "R9", "unix-condition-compared-with-flag", ctx.where(b),
+                  "match-unix compares is_unix with the configured boolean, and a mismatch never yields the permission")
 
 
 # ------------------------------------------------------------------ R4 PermissionType -> field
